@@ -197,6 +197,19 @@ def check_decl(ctx, rng, flag, base, idx):
                             viol("equal-to-a-member-of-another-enum:enum-vs-flag", other=repr(x))
                     except Exception:  # noqa: BLE001
                         pass
+                # an object made from a member of another enum / flag (explicit conversion) is the object a parse of
+                # that integer gives: integer value, name, equality, hash
+                for other in (O, getattr(cs, cross_name)):
+                    try:
+                        src = other(v)
+                        conv = E(src)
+                    except Exception:  # noqa: BLE001
+                        continue
+                    ctx.event("conversions_from_another_enum")
+                    if isinstance(conv.value, _enum.Enum) or int(conv.value) != int(src.value) or \
+                            (int(src.value) == v and not (conv == a and hash(conv) == hash(a) and conv.name == a.name)):
+                        viol("conversion-from-a-member-of-another-enum-differs-from-a-parse-of-its-value",
+                             source=repr(src), got=repr(conv), value=repr(conv.value), name=repr(conv.name))
                 # bit-field
                 if has_b and 0 <= v < (1 << bitw):
                     unit = v if endian == "<" else v << (size * 8 - bitw)
